@@ -4,7 +4,9 @@
 (* do_verify_attestation on SGX, then load ; save ; verify again) with the *)
 (* clauses of AttestFlowProps.  One trace = one observation record (see    *)
 (* AttestFlowProps); printed values and device values are strings, files   *)
-(* are sequences of rows of strings.  The first failing clause is named.   *)
+(* are sequences of rows of strings; `http` is the list of requests the    *)
+(* tools made to the (scripted) Rootstock node and web server.  The first  *)
+(* failing clause is named.                                                *)
 EXTENDS AttestFlowProps, TraceLib
 
 VARIABLES tid, l, bad
@@ -15,7 +17,14 @@ T == Traces[tid]
 Keys(ks) == [i \in 1..Len(ks) |-> <<ks[i][1], ks[i][2]>>]
 Dev(d) == [d EXCEPT !.keys = Keys(d.keys)]
 Prn(p) == [f \in PrintFields |-> IF f = "keys" THEN Keys(p.keys) ELSE p[f]]
-O == [plat |-> T.plat, alt |-> T.alt, dev |-> Dev(T.dev),
+Http(h) == [i \in 1..Len(h) |-> [verb |-> h[i].verb, url |-> h[i].url, ctype |-> h[i].ctype,
+                                   version |-> h[i].version, idkind |-> h[i].idkind, method |-> h[i].method,
+                                   params |-> [j \in 1..Len(h[i].params) |-> h[i].params[j]]]]
+O == [udsrc |-> T.udsrc, node |-> T.node, node_at |-> T.node_at, node_n |-> T.node_n,
+      node_url |-> T.node_url, rootvia |-> T.rootvia, root_url |-> T.root_url, http |-> Http(T.http),
+      ud_sent |-> T.ud_sent, att_file |-> T.att_file, contacted |-> T.contacted,
+      g_err |-> T.g_err, v_err |-> T.v_err,
+      plat |-> T.plat, alt |-> T.alt, dev |-> Dev(T.dev),
       g_onboard |-> T.g_onboard, g_attest |-> T.g_attest, gather |-> T.gather,
       file0 |-> T.file0, reload0 |-> T.reload0, file |-> T.file, reload |-> T.reload,
       reload_ok |-> T.reload_ok, verify |-> T.verify, printed |-> Prn(T.printed),
